@@ -448,9 +448,9 @@ func Check(c *core.Ctx) int {
 	}
 	outs := make([]*outcome, len(ps))
 	errs := make([]error, len(ps))
-	par, tlcWorkers, replayPar := 6, 2, 24
+	par, tlcWorkers, replayPar := 6, 2, 64
 	if c.Thorough() {
-		par, tlcWorkers, replayPar = 3, 4, 32
+		par, tlcWorkers, replayPar = 3, 4, 64
 	}
 	if s := os.Getenv("VERIF_CHAINOBS_PAR"); s != "" {
 		fmt.Sscan(s, &par)
